@@ -10,6 +10,7 @@ CONSTANTS
   Lims = {0, 1, 2}
   NodeCounts = {1}
   LockKeys = {"owner"}
+  Variants = {}
   FixedKinds = {}
   WithRelease = TRUE
   Emit = FALSE
